@@ -67,4 +67,18 @@ def chkArc (f : Frame α) (R kt eps : α) (p0 pe : P α) (l : List (ArcSeg α)) 
     && decide (f.rx * f.rx ≤ R * R) && decide (f.ry * f.ry ≤ R * R) && (f.c * f.c + f.s * f.s == one)
     && chainOK p0 zero pe one (l.map (·.sg)) && adviceChain l && l.all (segOK f R kt eps)
 
+/-! ## violation certificate -/
+
+/-- `q` is in the cone spanned by `p0` and `p1` (not parallel): the cross products `p0 × q` and
+`q × p1` have the sign of `p0 × p1` -/
+def inCone (p0 p1 q : P α) : Bool :=
+  (decide (zero < p0.cross p1) && decide (zero ≤ p0.cross q) && decide (zero ≤ q.cross p1))
+    || (decide (p0.cross p1 < zero) && decide (p0.cross q ≤ zero) && decide (q.cross p1 ≤ zero))
+
+/-- **certified failing arc**: `q` is a point of the unit circle in the cone of the advice points of the
+segment `x` (so `A(q)` is a point of the arc between them), and `A(q)` is farther than `√r2` from every
+emitted segment -/
+def arcViol (f : Frame α) (r2 : α) (x : ArcSeg α) (q : P α) (l : List (ArcSeg α)) : Bool :=
+  (q.sqLen == one) && inCone x.pa x.pb q && farFrom (f.map q) r2 (l.map (·.sg))
+
 end Lyon.ArcChk
